@@ -81,6 +81,7 @@ Next ==
     \/ \E r \in RefSet, p \in PatSet, l \in BOOLEAN : List(r, p, l)
     \/ \E r \in RefSet, p1 \in PatSet, p2 \in PatSet : p1 # p2 /\ ListMulti(r, p1, p2)
     \/ \E r \in RefSet, p \in PatSet : ListExt(r, p, "SUBSCRIBED", "") \/ ListExt(r, p, "", "SUBSCRIBED")
+                                          \/ ListExt(r, p, "SUBSCRIBED RECURSIVEMATCH", "")
     \/ Restart
 
 Spec == Init /\ [][Next]_vars
